@@ -147,6 +147,9 @@ func Main(args []string) int {
 			v := Variants[map[string]string{"s": "s", "b": "b", "v": "s"}[mode]]
 			v.V1 = mode == "v"
 			v.Batch = uint64(1 + rng.Intn(3)) // small sweep batches: the liveness bound is exercised
+			if v.V1 && r%2 == 1 { // cursor behaviours: batch sizes 1 and 2 against 4 / 6 open borrows
+				v.Batch = uint64(1 + (r/2)%2)
+			}
 			v.LowT1 = mode == "s" && r%2 == 1
 			f := NewFix(v)
 			d := &driver{f: f, e: f.E, rng: rng, lg: lg, mode: map[string]string{"s": "s", "b": "b", "v": "s"}[mode], run: fmt.Sprintf("drive:%s:%d:%d", mode, *seed, r)}
